@@ -162,48 +162,55 @@ def rule_generators(rep):
 
 # ---------------------------------------------------------------------------
 def rule_execstack(rep):
+    """every assembly unit of the library, assembled with exactly the flags the
+    build system gives it, carries a non-executable .note.GNU-stack.  The flags
+    are taken from the compilation database of a gcc and of a clang
+    configuration: the ELF toolchains the build supports must both get the
+    marking (it comes from a configure-time decision in CMakeLists.txt, not
+    from the .S files)."""
     rid = "C18.D2"
-    rep.rule(rid, "every assembly object carries a non-executable .note.GNU-stack")
-    build = repo.configure(repo.DEFAULT)
-    units = [u for u in build.units if u.group in ("lib", "libshared") and u.lang == "asm"]
-    if len(units) < 30:
-        raise repo.AnalysisBroken("%s: only %d assembly units in the compilation database" % (rid, len(units)))
-    outdir = os.path.join(build.dir, "asmobj")
-    os.makedirs(outdir, exist_ok=True)
-    seen = set()
-    for u in units:
-        if u.rel in seen:
-            continue
-        seen.add(u.rel)
-        obj = os.path.join(outdir, os.path.basename(u.file) + ".o")
-        args = [a for a in u.args]
-        # replace the output of the real command
-        if "-o" in args:
-            args[args.index("-o") + 1] = obj
-        p = subprocess.run(args, cwd=u.directory, stdout=subprocess.PIPE, stderr=subprocess.PIPE)
-        if p.returncode != 0:
-            raise repo.AnalysisBroken("%s: cannot assemble %s with the repository's flags: %s" % (
-                rid, u.rel, p.stderr.decode(errors="replace")[-300:]))
-        r = repo.run(["llvm-readelf-14", "-S", "-W", obj])
-        note = None
-        for line in r.stdout.decode().splitlines():
-            if ".note.GNU-stack" in line:
-                note = line
-        flagsrc = [a for a in u.args if "noexecstack" in a]
-        if note is None:
-            rep.violation(rid, u.rel, u.file,
-                          "object assembled from %s has no .note.GNU-stack section, so linking it makes the "
-                          "stack executable (the file has no such directive and the ASM flags contain no "
-                          "--noexecstack)" % u.rel)
-        else:
-            fl = note.split()
-            # flags column: contains X when executable stack is requested
-            xflag = bool(re.search(r"PROGBITS\s+\S+\s+\S+\s+\S+\s+\S+\s+\S*X", note))
-            if xflag:
-                rep.violation(rid, u.rel, u.file, "%s requests an executable stack (.note.GNU-stack has flag X)" % u.rel)
+    rep.rule(rid, "every assembly object carries a non-executable .note.GNU-stack (gcc and clang configurations)")
+    for cc in ("gcc", "clang"):
+        build = repo.configure(repo.Config("asm", cc=cc))
+        units = [u for u in build.units if u.group in ("lib", "libshared") and u.lang == "asm"]
+        if len(units) < 30:
+            raise repo.AnalysisBroken("%s: only %d assembly units in the compilation database (%s)" % (rid, len(units), cc))
+        outdir = os.path.join(build.dir, "asmobj")
+        os.makedirs(outdir, exist_ok=True)
+        seen = set()
+        for u in units:
+            if u.rel in seen:
+                continue
+            seen.add(u.rel)
+            obj = os.path.join(outdir, os.path.basename(u.file) + ".o")
+            args = [a for a in u.args]
+            # replace the output of the real command
+            if "-o" in args:
+                args[args.index("-o") + 1] = obj
+            p = subprocess.run(args, cwd=u.directory, stdout=subprocess.PIPE, stderr=subprocess.PIPE)
+            if p.returncode != 0:
+                raise repo.AnalysisBroken("%s: cannot assemble %s with the repository's flags (%s): %s" % (
+                    rid, u.rel, cc, p.stderr.decode(errors="replace")[-300:]))
+            r = repo.run(["llvm-readelf-14", "-S", "-W", obj])
+            note = None
+            for line in r.stdout.decode().splitlines():
+                if ".note.GNU-stack" in line:
+                    note = line
+            flagsrc = [a for a in u.args if "noexecstack" in a]
+            if note is None:
+                rep.violation(rid, u.rel, u.file,
+                              "object assembled from %s with the flags of the %s configuration has no .note.GNU-stack "
+                              "section, so linking it makes the stack executable (the file has no such directive and "
+                              "the ASM flags of that configuration contain no --noexecstack)" % (u.rel, cc), config=cc)
             else:
-                rep.instance(rid, 1, {"unit": u.rel, "reason": flagsrc or "directive in the file"})
-    rep.floor(rid, 15)
+                # flags column: contains X when executable stack is requested
+                xflag = bool(re.search(r"PROGBITS\s+\S+\s+\S+\s+\S+\s+\S+\s+\S*X", note))
+                if xflag:
+                    rep.violation(rid, u.rel, u.file, "%s requests an executable stack (.note.GNU-stack has flag X, %s "
+                                  "configuration)" % (u.rel, cc), config=cc)
+                else:
+                    rep.instance(rid, 1, {"unit": u.rel, "toolchain": cc, "reason": flagsrc or "directive in the file"})
+    rep.floor(rid, 30)
 
 
 # ---------------------------------------------------------------------------
